@@ -266,6 +266,16 @@ def fam_construct(rng, n, tier):
                 for order in ("a,b", "b,a", "a,a,b"):
                     bad.append(["new a %s %s" % (dims_s(s), v), "new b %s %s" % (dims_s(t), v), "nest c %s" % order])
     bad.append(["nest c -"])
+    # parts that share one buffer: an array next to a reshaped view / a clone of itself (same count, other dimensions
+    # must be refused; same dimensions must give the doubled array)
+    for (s_, t_) in (([2, 3], [3, 2]), ([2, 3], [6]), ([6], [2, 3]), ([2, 2], [4]), ([2, 2], [1, 4]), ([1, 3], [3, 1]), ([3], [3, 1]), ([3], [1, 3])):
+        vv = vals_s(list(range(1, prod(s_) + 1)), "exact")
+        bad.append(["new a %s %s" % (dims_s(s_), vv), "reshape v a %s" % dims_s(t_), "nest c a,v"])
+        bad.append(["new a %s %s" % (dims_s(s_), vv), "reshape v a %s" % dims_s(t_), "nest c v,a"])
+        bad.append(["new a %s %s" % (dims_s(s_), vv), "reshape v a %s" % dims_s(t_), "clone k a", "nest c k,v,a"])
+    for s_ in ([2, 3], [3], [1, 2]):
+        vv = vals_s(list(range(1, prod(s_) + 1)), "exact")
+        bad.append(["new a %s %s" % (dims_s(s_), vv), "clone k a", "reshape v a %s" % dims_s(s_), "nest c a,k", "nest d a,v,k", "nest e a,a"])
     for i, L in enumerate(bad):
         cases.append(Case(L, ("bad", i, tuple(L)), ["malformed"]))
     return cases
@@ -792,7 +802,7 @@ class Prog:
             b = self.new_leaf(self.shape[b], kind="pos")
         r = res or self.fresh()
         if op == "axpy":
-            alpha = rng.choice([2, -1, 3, -2]) if self.mode == "exact" else rng.choice([0.5, -1.5, 2.0])
+            alpha = rng.choice([2, -1, 3, -2, 1, 0]) if self.mode == "exact" else rng.choice([0.5, -1.5, 2.0, 1.0, 0.0])
             self.emit("axpy %s %s %s %s" % (r, sc(alpha, self.mode), a, b))
         else:
             self.emit("%s %s %s %s" % (op, r, a, b))
@@ -820,10 +830,11 @@ class Prog:
             a = t
         r = res or self.fresh()
         if op == "scale":
-            self.emit("scale %s %s %s" % (r, a, sc(rng.choice([2, -1, 3, Fraction(1, 2)]) if self.mode == "exact" else rng.uniform(-2, 2), self.mode)))
+            # 0, 1 and -1 are factors like any other: a new array with its own node, the usual derivative
+            self.emit("scale %s %s %s" % (r, a, sc(rng.choice([2, -1, 3, Fraction(1, 2), 1, 0]) if self.mode == "exact" else rng.choice([rng.uniform(-2, 2), rng.uniform(-2, 2), 1.0, 0.0, -1.0]), self.mode)))
             self.shape[r] = list(s)
         elif op == "powf":
-            self.emit("powf %s %s %s" % (r, a, sc(rng.choice([1, 2]) if self.mode == "exact" else 2.0, self.mode)))
+            self.emit("powf %s %s %s" % (r, a, sc(rng.choice([1, 2]) if self.mode == "exact" else rng.choice([2.0, 2.0, 1.0, 3.0]), self.mode)))
             self.shape[r] = list(s)
         elif op == "sum":
             k = rng.randint(0, len(s))
@@ -1024,6 +1035,15 @@ def fam_customlog(rng, n, tier, mode="exact"):
                     L.append("probe %s" % nm)
                 cases.append(Case(L, ("cl", combo, flags), ["exhaustive", "n%d" % nn], mode,
                                   nontrivial=(nn >= 2)))
+    # one node consumed very many times by a single operation: the count of pending consumers passes 2^8 and 2^16;
+    # still one invocation, with the whole adjoint
+    for fan in ([255, 256, 257, 65536, 65537] if tier == "quick" else [255, 256, 257, 65535, 65536, 65537, 131073]):
+        L = ["new l0 2 1,2", "tracked l0", "cop 2 n l0", "cop 0 r %s" % ",".join(["n"] * fan), "backward r -", "log", "grad l0", "probe n",
+             "backward r -", "log", "grad l0"]
+        cases.append(Case(L, ("fanout", fan), ["fan-out", "fan>=2^%d" % (fan.bit_length() - 1)], mode))
+        L = ["new l0 2 1,2", "tracked l0", "cop 2 n l0", "new w 2 3,5", "tracked w", "cop 0 r %s" % ",".join(["n"] * (fan - 1) + ["w", "n"]),
+             "backward r -", "log", "grad l0", "grad w"]
+        cases.append(Case(L, ("fanout-mixed", fan), ["fan-out"], mode))
     # a logging node with tracked consumers AND consumers built while it was temporarily not tracked
     # (those edges carry no delta and must not count as deliveries): every creation position of the
     # untracked consumers x orders in which the root lists its operands
@@ -1246,6 +1266,28 @@ def fam_release(rng, n, tier, mode="exact"):
                 L.append("backward h -")
             L += ["drop h", "probe x", "own x", "params L0"]
             cases.append(Case(L, ("rellayer", lay[0].split(" ")[0], bw), ["release", "layer"], mode))
+    # a model moves on: once it has been run on the next input and the caller has dropped the earlier results,
+    # the earlier input is owned by the caller alone - whatever was tracked (inputs, parameters) in either run
+    for freeze in ("none", "all", "weights", "bias"):
+        for (t0, t1) in ((1, 0), (0, 1), (1, 1), (0, 0)):
+            for bw in (False, True):
+                L = ["dense L0 2 2 none %s %s" % (vals_s([1, 2, 3, 4], mode), vals_s([1, 1], mode)),
+                     "dense L1 2 2 none %s %s" % (vals_s([1, -1, 2, 1], mode), vals_s([0, 1], mode))]
+                if freeze != "none":
+                    wh = {"all": 2, "weights": 0, "bias": 1}[freeze]
+                    L += ["lflag L0 %d 0" % wh, "lflag L1 %d 0" % wh]
+                L.append("model M mse %s L0,L1" % sc(Fraction(1, 2) if mode == "exact" else 0.5, mode))
+                for it, trk in enumerate((t0, t1)):
+                    L.append("new x%d 2,2 %s" % (it, vals_s(gen_vals(rng, 4, mode), mode)))
+                    if trk:
+                        L.append("tracked x%d" % it)
+                    L.append("fwd o%d M x%d" % (it, it))
+                    if bw and (trk or freeze != "all"):
+                        L += ["new y%d 2,2 %s" % (it, vals_s(gen_vals(rng, 4, mode), mode)), "bwd M y%d" % it, "update M"]
+                    if it == 1:
+                        L += ["drop o0", "probe x0", "cleargrad x0", "own x0"]
+                L += ["drop o1", "probe x1"]
+                cases.append(Case(L, ("relmodel", freeze, t0, t1, bw), ["release", "model", "freeze-" + freeze], mode))
     for i in range(n):
         p = Prog(rng, mode)
         leaves = [p.new_leaf() for _ in range(rng.randint(1, 3))]
@@ -1370,6 +1412,36 @@ ACTS_FLOAT = ["none", "relu", "sigmoid", "softmax"]
 def fam_train(rng, n, tier, mode="exact", forward_only=False):
     """C14 / C15 / C18: stacks of dense / conv layers, both costs, batches, several iterations"""
     cases = []
+    if not forward_only:
+        # inputs that are themselves tracked results: the model applied to its own output (the parameters are
+        # reached through both applications), to a scaled tracked leaf, to the output of another model
+        for variant in ("self", "computed", "other-model", "self-twice"):
+            for act in (["none", "relu"] if mode == "exact" else ["none", "sigmoid"]):
+                w = [1, -1, 2, 1] if mode == "exact" else [0.5, -0.25, 0.75, 0.5]
+                b = [1, 0] if mode == "exact" else [0.1, -0.2]
+                L = ["dense L0 2 2 %s %s %s" % (act, vals_s(w, mode), vals_s(b, mode)),
+                     "model M mse %s L0" % sc(Fraction(1, 4) if mode == "exact" else 0.25, mode)]
+                if variant == "other-model":
+                    L += ["dense K0 2 2 none %s %s" % (vals_s([2, 0, 1, 1] if mode == "exact" else [0.3, 0.1, -0.2, 0.4], mode), vals_s(b, mode)),
+                          "model N mse %s K0" % sc(Fraction(1, 2) if mode == "exact" else 0.5, mode)]
+                for it in range(2):
+                    xv = [1, 2, -1, 1] if it == 0 else [0, 1, 2, -2]
+                    L.append("new x%d 2,2 %s" % (it, vals_s(xv if mode == "exact" else [v / 2 for v in xv], mode)))
+                    if variant in ("self", "self-twice"):
+                        L += ["fwd h%d M x%d" % (it, it), "fwd o%d M h%d" % (it, it)]
+                        if variant == "self-twice":
+                            L.append("fwd o%d M o%d" % (it, it))
+                    elif variant == "computed":
+                        L += ["tracked x%d" % it, "scale xs%d x%d %s" % (it, it, sc(2, mode)), "fwd o%d M xs%d" % (it, it)]
+                    else:
+                        L += ["fwd h%d N x%d" % (it, it), "fwd o%d M h%d" % (it, it)]
+                    L += ["new y%d 2,2 %s" % (it, vals_s([1, 0, 0, 1] if mode == "exact" else [1.0, 0.0, 0.0, 1.0], mode)), "bwd M y%d" % it, "params M"]
+                    if variant == "computed":
+                        L.append("grad x%d" % it)
+                    if variant == "other-model":
+                        L += ["params N", "update N", "params N"]
+                    L += ["update M", "params M"]
+                cases.append(Case(L, ("trainfeed", variant, act), ["tracked-result-input", variant], mode))
     for i in range(n):
         L = []
         kind = rng.choice(["dense", "dense", "conv"])
@@ -1429,6 +1501,19 @@ def fam_train(rng, n, tier, mode="exact", forward_only=False):
             L.append("params L0")
             cases.append(Case(L, ("fwd", i, tuple(L)), tags + ["forward"], mode))
             continue
+        fr_ = rng.random()
+        if fr_ < 0.12:
+            # a frozen model: every parameter stopped before the model is built (a fixed feature map)
+            for lay in layers:
+                L.append("lflag %s 2 0" % lay)
+            tags.append("frozen-model")
+        elif fr_ < 0.3:
+            # some parameters frozen (weights or bias of one layer), possibly started again
+            lay = rng.choice(layers)
+            L.append("lflag %s %d 0" % (lay, rng.choice([0, 1, 2])))
+            if rng.random() < 0.3:
+                L.append("lflag %s %d 1" % (lay, rng.choice([0, 1, 2])))
+            tags.append("partly-frozen")
         L.append("model M %s %s %s" % (cost, sc(lr, mode), ",".join(layers)))
         iters = rng.randint(1, 3 if tier == "quick" else 5)
         base_x, base_y = list(xdims), list(ydims)
@@ -1738,6 +1823,26 @@ def fam_linear(rng, n, tier, mode="exact"):
                 L += ["new %sseed %s %s" % (pre, dims_s(sd), vals_s(sv, mode)), "backward %s%s %sseed" % (pre, root_, pre), "grad %sw" % pre]
             L.append("lin c_w %s a_w %s b_w" % (sc(al, mode), sc(be, mode)))
             out.append(Case(L, ("linroot", rootkind, tuple(dims)), ["root-" + rootkind], mode))
+    # a broadcast operand (its gradient is a reduction of the adjoint) under seeds of every magnitude
+    for k in (-80, -60, -53, -30, 0, 40):
+        for (da, db) in (([3], [2, 3]), ([2, 1], [2, 3]), ([1], [4])):
+            od = compat(da, db)
+            cnt = prod(od)
+            f = Fraction(2) ** k if mode == "exact" else 2.0 ** k
+            s1 = [x * f for x in ints(rng, cnt, -3, 3, nonzero=True)]
+            s2 = [x * f for x in ints(rng, cnt, -3, 3, nonzero=True)]
+            al, be = rng.choice([2, -1, 3]), rng.choice([1, -2])
+            s3 = [al * x + be * y for x, y in zip(s1, s2)]
+            L = []
+            va, vb = vals_s(gen_vals(rng, prod(da), mode), mode), vals_s(gen_vals(rng, prod(db), mode), mode)
+            for op in ("add", "mul"):
+                for pre, sv in (("a%s_" % op, s1), ("b%s_" % op, s2), ("c%s_" % op, s3)):
+                    L += ["new %sa %s %s" % (pre, dims_s(da), va), "tracked %sa" % pre, "new %sb %s %s" % (pre, dims_s(db), vb), "tracked %sb" % pre,
+                          "%s %sr %sa %sb" % (op, pre, pre, pre), "new %sseed %s %s" % (pre, dims_s(od), vals_s(sv, mode)),
+                          "backward %sr %sseed" % (pre, pre), "grad %sa" % pre, "grad %sb" % pre]
+                L.append("lin c%s_a %s a%s_a %s b%s_a" % (op, sc(al, mode), op, sc(be, mode), op))
+                L.append("lin c%s_b %s a%s_b %s b%s_b" % (op, sc(al, mode), op, sc(be, mode), op))
+            out.append(Case(L, ("linscale", k, tuple(da), tuple(db)), ["seed-magnitude", "2^%d" % k], mode))
     for i in range(n):
         p = build_program(rng, mode, rng.randint(1, 9 if tier == "quick" else 14))
         root = rng.choice(sorted(p.inter & set(p.shape)) or p.names())
@@ -1746,6 +1851,14 @@ def fam_linear(rng, n, tier, mode="exact"):
         s1 = ints(rng, cnt, -3, 3)
         s2 = ints(rng, cnt, -3, 3)
         al, be = rng.randint(-3, 3), rng.randint(-3, 3)
+        # seeds of any magnitude: far below the machine epsilon, or huge, or mixed (linearity is exact in
+        # binary floating point under scaling by powers of two)
+        if rng.random() < 0.4:
+            k1, k2 = rng.choice([(-60, -60), (-60, 0), (40, 40), (-100, -100), (-30, 20)])
+            f1 = Fraction(2) ** k1 if mode == "exact" else 2.0 ** k1
+            f2 = Fraction(2) ** k2 if mode == "exact" else 2.0 ** k2
+            s1 = [x * f1 for x in s1]
+            s2 = [x * f2 for x in s2]
         s3 = [al * x + be * y for x, y in zip(s1, s2)]
         L = []
         for pre, sv in (("a_", s1), ("b_", s2), ("c_", s3)):
@@ -1855,18 +1968,22 @@ def fam_flags(rng, n, tier, mode="exact"):
                     L.append("reshape w2 w 2,2")
                     L += ["mul z w2 k", "backward z -", "grad a", "grad k"]
                 cases.append(Case(L, ("flview", first, detach, second), ["view-roundtrip", "flags"], mode, nontrivial=(detach != "none")))
-    for op in unops:
+    special = [("scale", " " + sc(1, mode)), ("scale", " " + sc(0, mode)), ("scale", " " + sc(-1, mode)), ("powf", " " + sc(1, mode)),
+               ("sum", " 2"), ("sum", " 0"), ("reshape", " 2,2"), ("reshape", " 1,4"), ("reshape", " 2,1,2")]
+    for (op, sarg) in [(o, None) for o in unops] + special:
         for ha in hows:
+            if sarg is not None and ha not in ("plain", "tracked", "start", "untracked"):
+                continue
             L = []
             ta = leaf(L, "a", [2, 2], ha)
-            arg = {"scale": " " + sc(2, mode), "powf": " " + sc(2, mode), "sum": " 1", "reshape": " 4"}.get(op, "")
+            arg = sarg if sarg is not None else {"scale": " " + sc(2, mode), "powf": " " + sc(2, mode), "sum": " 1", "reshape": " 4"}.get(op, "")
             L.append("%s r a%s" % (op, arg))
             L += ["probekid r 0", "probe r"]
             if not ta:
                 L += ["probe a"] + (["own a"] if op != "reshape" else [])
             else:
                 L += ["backward r -", "grad a", "grad r", "start a", "probekid r 0"]
-            cases.append(Case(L, ("fl1", op, ha), [op, "flags"], mode))
+            cases.append(Case(L, ("fl1", op, ha, sarg or ""), [op, "flags"] + (["special-parameter"] if sarg else []), mode))
     # matmul with the additive term, all 8 assignments
     # (every form of the additive term: a bias row, a single value, a one-row and a full matrix)
     for cd in ([2], [1], [1, 2], [2, 2]):
@@ -2407,6 +2524,22 @@ def fam_sizes(rng, n, tier, mode="exact", part="all", grads=False):
                 if grads:
                     P += ["backward r -", "grad a"]
                 cases.append(Case(P, ("sz-longsum", L, tuple(dims), k, grads), ["long", "sum", "len%d" % L], mode))
+    # buffers of 2^12 .. 2^15 values (block-wise kernels): bias-style and column-style broadcasts whose short
+    # operand's length does not divide a power of two, long sums, long maps
+    if not grads:
+        for (da, db) in (([700, 6], [6]), ([6], [1500, 6]), ([1366, 6], [1, 6]), ([3, 3000], [3000]), ([9001], [1]), ([1], [9001]),
+                         ([1500, 7], [1500, 1]), ([2, 1100, 5], [1100, 5]), ([5000, 3], [3])) + ((([6000, 6], [6]), ([33000], [33000])) if tier == "thorough" else ()):
+            if part in ("all", "ewise"):
+                for op in ("add", "mul"):
+                    pat = lambda k, m: [((i * m + 3) % 11) - 5 for i in range(k)] if mode == "exact" else floats(rng, k, -2, 2)
+                    P = ["new a %s %s" % (dims_s(da), vals_s(pat(prod(da), 7), mode)), "new b %s %s" % (dims_s(db), vals_s(pat(prod(db), 5), mode)),
+                         "%s r a b" % op, "%s q b a" % op]
+                    cases.append(Case(P, ("sz-block", tuple(da), tuple(db), op), ["block", "values>=2^%d" % (max(prod(da), prod(db)).bit_length() - 1)], mode))
+        if part in ("all", "reduce"):
+            for dims, k in (([9001], 1), ([1500, 6], 1), ([1500, 6], 2), ([3, 3000], 1), ([2, 700, 7], 2)):
+                P = ["new a %s %s" % (dims_s(dims), vals_s([((i * 7 + 3) % 11) - 5 for i in range(prod(dims))] if mode == "exact" else floats(rng, prod(dims), -2, 2), mode)),
+                     "sum r a %d" % k, "sumall a", "neg n a", "scale s a %s" % sc(3, mode), "relu u a"]
+                cases.append(Case(P, ("sz-blocksum", tuple(dims), k), ["block", "sum"], mode))
     for L in lens:
         if part in ("all", "reduce"):
             for dims, k in (([L], 1), ([2, L], 1), ([2, L], 2), ([L, 3], 2), ([L, 3], 1), ([2, 2, L], 3)):
@@ -2472,6 +2605,22 @@ def fam_sizes(rng, n, tier, mode="exact", part="all", grads=False):
                 if grads:
                     P += ["backward r -", "grad a", "grad f"]
                 cases.append(Case(P, ("sz-conv", L, rows, cols, fr, fc, sr, sc_, grads), ["conv", "len%d" % L], mode))
+    # wide and tall filters (row-wise block copies), several window positions, unequal strides, depth and batch > 1
+    if part in ("all", "conv"):
+        for (batch, depth, rows, cols, count, fr, fc, sr, sc_) in (
+                ([2], 2, 5, 40, 2, 2, 32, 1, 3), ([], 1, 4, 70, 1, 2, 33, 2, 1), ([], 2, 40, 6, 2, 31, 2, 3, 1), ([2], 1, 70, 5, 1, 64, 3, 1, 2),
+                ([], 1, 3, 100, 2, 1, 64, 1, 5), ([], 3, 34, 35, 1, 32, 32, 2, 3), ([], 1, 2, 48, 1, 2, 16, 1, 2), ([], 1, 20, 3, 1, 17, 2, 1, 1)):
+            idims = batch + [depth, rows, cols]
+            if grads and prod(idims) + count * depth * fr * fc > 150:
+                continue        # the forward-mode reference costs one evaluation per input element
+            P = ["new a %s %s" % (dims_s(idims), vals_s([((i * 7 + 3) % 11) - 5 for i in range(prod(idims))] if mode == "exact" else floats(rng, prod(idims), -2, 2), mode)),
+                 "new f %s %s" % (dims_s([count, depth, fr, fc]), vals_s([((i * 5 + 1) % 7) - 3 for i in range(count * depth * fr * fc)] if mode == "exact" else floats(rng, count * depth * fr * fc, -2, 2), mode))]
+            if grads:
+                P += ["tracked a", "tracked f"]
+            P.append("conv r a f %d %d" % (sr, sc_))
+            if grads:
+                P += ["backward r -", "grad a", "grad f"]
+            cases.append(Case(P, ("sz-convwide", tuple(idims), count, fr, fc, sr, sc_, grads), ["conv", "wide-filter"], mode))
     return cases
 
 
